@@ -11,8 +11,8 @@ func VerifC18Lines() {
 	var counts []int
 	for i := 0; i < nf; i++ {
 		l := verifInt()
-		verifAssume(l >= 1 && l < 1<<31) // AddFile guarantees at least one line per file
-		fr.files = append(fr.files, file{names[i], l})
+		verifAssume(l >= 0 && l < 1<<31) // a file added after a newline-terminated one may be empty (zero lines)
+		fr.files = append(fr.files, file{path: names[i], lines: l})
 		counts = append(counts, l)
 	}
 	g := verifInt()
@@ -68,4 +68,42 @@ func (r *verifReader) Read(p []byte) (int, error) {
 	n := copy(p, r.data[r.pos:])
 	r.pos += n
 	return n, nil
+}
+
+// the same through the public API: up to three files with 0-2 lines each (an empty file after a
+// newline-terminated one has zero lines), every global line
+func VerifC18FileLineAPI() {
+	nf := verifIntRange(1, 3)
+	names := []string{"a", "b", "c"}
+	fr := &FileReader{}
+	var counts []int
+	for i := 0; i < nf; i++ {
+		content := []string{"", "x", "x\n", "x\ny", "x\ny\n"}[verifIntRange(0, 4)]
+		before := len(fr.Source())
+		verifAssert(fr.AddFile(names[i], &verifReader{data: []byte(content)}) == nil, "AddFile failed")
+		n := 0
+		for _, b := range fr.Source()[before:] {
+			if b == '\n' {
+				n++
+			}
+		}
+		counts = append(counts, n)
+	}
+	total := 0
+	for _, c := range counts {
+		total += c
+	}
+	g := verifIntRange(0, total+1)
+	path, m := fr.FileLine(g)
+	if g < 1 || g > total {
+		verifAssert(path == "" && m == 0, "a line outside the concatenated source must map to no file")
+		return
+	}
+	start := 1
+	for i, c := range counts {
+		if g >= start && g < start+c {
+			verifAssert(path == names[i] && m == g-start+1, "FileLine does not return the file that contains the line (files without lines own no line)")
+		}
+		start += c
+	}
 }
